@@ -323,3 +323,6 @@ End pkg_mods_file.
 Module pkg_mods_flag.
 End pkg_mods_flag.
 
+Module pkg_ui_styledown.
+End pkg_ui_styledown.
+
